@@ -305,11 +305,33 @@ func discharge1(o *Obligation, dir string, timeoutS int, seed int, all bool) {
 		// no definite answer (timeout/unknown): one more race with four times the budget, so that a loaded
 		// machine does not turn a slow proof into an alarm
 		cctx2, cancel2 := context.WithCancel(ctx)
-		ch2 := make(chan solveOutcome, len(Solvers))
-		for _, s := range Solvers {
+		// the retry portfolio adds differently seeded z3 runs and the sliced query: solver run time on quantified
+		// goals varies a lot with the search order
+		retry := append([]SolverCfg{}, Solvers...)
+		for _, seed := range []int{7, 23} {
+			sd := seed
+			retry = append(retry, SolverCfg{fmt.Sprintf("z3-5.1.0 seed=%d", sd), func(f string, t int) []string {
+				return []string{"z3-new", fmt.Sprintf("-T:%d", t), fmt.Sprintf("smt.random_seed=%d", sd), fmt.Sprintf("sat.random_seed=%d", sd), f}
+			}})
+		}
+		sliced := filepath.Join(dir, sanitizeFile(o.Name)+".sliced.smt2")
+		ch2 := make(chan solveOutcome, len(retry)+1)
+		n2 := len(retry)
+		for _, s := range retry {
 			go func(s SolverCfg) { ch2 <- runSolver(cctx2, s, file, 4*timeoutS) }(s)
 		}
-		for i := 0; i < len(Solvers); i++ {
+		if _, err := os.Stat(sliced); err == nil && !o.Vacuity {
+			n2++
+			go func() {
+				r := runSolver(cctx2, Solvers[0], sliced, 4*timeoutS)
+				if r.status != "unsat" {
+					r.status = "unknown" // a sliced query only proves, it never refutes
+				}
+				r.solver += " (sliced)"
+				ch2 <- r
+			}()
+		}
+		for i := 0; i < n2; i++ {
 			x := <-ch2
 			outs = append(outs, x.solver+" (retry): "+x.status)
 			if x.status == want || x.status == "sat" || x.status == "unsat" {
